@@ -43,6 +43,8 @@ pub enum Ev {
     TWrite { offered: usize, accepted: usize },
     TWriteErr(ErrorKind),
     TWritePending,
+    TFlush { moved: usize },
+    TFlushPending,
     ReadCall,
     ReadReturn(ReadResult),
     WriteCall(String),
@@ -65,6 +67,12 @@ pub struct Shared {
     pub min_offered: usize,
     /// number of transport polls so far (read + write), for cancellation plans
     pub polls: usize,
+    /// buffered (message-queue like) transport, as the WebSocket adaptor is: accepted bytes are only staged and
+    /// reach `written` (the wire) when a flush completes. Off by default.
+    pub buffered: bool,
+    pub staged: Vec<u8>,
+    /// async only: `true` = this flush poll is not ready
+    pub flush_plan: VecDeque<bool>,
 }
 
 #[derive(Clone, Debug)]
@@ -147,11 +155,33 @@ impl Shared {
             },
             WAct::Accept(k) => {
                 let n = k.max(1).min(src.len());
-                self.written.extend_from_slice(&src[..n]);
+                if self.buffered {
+                    self.staged.extend_from_slice(&src[..n]);
+                } else {
+                    self.written.extend_from_slice(&src[..n]);
+                }
                 self.events.push(Ev::TWrite { offered: src.len(), accepted: n });
                 Poll::Ready(Ok(n))
             },
         }
+    }
+}
+
+impl Shared {
+    fn do_flush(&mut self, allow_pending: bool) -> Poll<io::Result<()>> {
+        if !self.buffered {
+            return Poll::Ready(Ok(()));
+        }
+        self.polls += 1;
+        if allow_pending && self.flush_plan.pop_front() == Some(true) {
+            self.events.push(Ev::TFlushPending);
+            return Poll::Pending;
+        }
+        let moved = self.staged.len();
+        let staged = std::mem::take(&mut self.staged);
+        self.written.extend_from_slice(&staged);
+        self.events.push(Ev::TFlush { moved });
+        Poll::Ready(Ok(()))
     }
 }
 
@@ -177,7 +207,10 @@ impl Write for BlockingTransport {
         }
     }
     fn flush(&mut self) -> io::Result<()> {
-        Ok(())
+        match self.0.with(|s| s.do_flush(false)) {
+            Poll::Ready(r) => r,
+            Poll::Pending => unreachable!(),
+        }
     }
 }
 
@@ -213,8 +246,14 @@ impl AsyncWrite for AsyncTransport {
             },
         }
     }
-    fn poll_flush(self: Pin<&mut Self>, _cx: &mut Context<'_>) -> Poll<io::Result<()>> {
-        Poll::Ready(Ok(()))
+    fn poll_flush(self: Pin<&mut Self>, cx: &mut Context<'_>) -> Poll<io::Result<()>> {
+        match self.0.with(|s| s.do_flush(true)) {
+            Poll::Ready(r) => Poll::Ready(r),
+            Poll::Pending => {
+                cx.waker().wake_by_ref();
+                Poll::Pending
+            },
+        }
     }
     fn poll_shutdown(self: Pin<&mut Self>, _cx: &mut Context<'_>) -> Poll<io::Result<()>> {
         Poll::Ready(Ok(()))
